@@ -620,7 +620,7 @@ fn op_touches_slot(op: &Op, r: u64) -> bool {
 /// 255 cannot work in a Linux process (the page (255,255,255,255) is the last user page, which the
 /// kernel never maps, and the stack lives in that slot); 254 usually holds the shared libraries.
 const REC_CANDIDATES: [u64; 5] = [1, 2, 100, 254, 255];
-const REC_FALLBACKS: [u64; 4] = [253, 200, 128, 3];
+const REC_FALLBACKS: [u64; 4] = [200, 128, 3, 253];
 
 pub fn pick_rec_index(out: &mut Out, rng: &mut Rng) -> u64 {
     let first = rng.pick(&REC_CANDIDATES);
